@@ -33,7 +33,7 @@ theorem glProx_strong_min (w : E) {α : ℝ} (hα : 0 ≤ α) (z : E) :
   · simp only [zero_sub, norm_neg, norm_zero, mul_zero, add_zero, sub_zero]
     rw [norm_sub_sq_real]
     nlinarith [mul_le_mul_of_nonneg_left h hz]
-  · push_neg at h
+  · have h := not_le.mp h
     have hwpos : 0 < ‖w‖ := lt_of_le_of_lt hα h
     set t : ℝ := 1 - α / ‖w‖ with ht
     have ht0 : 0 ≤ t := by
@@ -92,7 +92,7 @@ theorem clipPM_sub_sq (t x : ℝ) : (clipPM t x - x) ^ 2 = (max (|x| - t) 0) ^ 2
     rcases le_total x t with h | h
     · rw [min_eq_left h, max_eq_right (by linarith)]; ring
     · rw [min_eq_right h, max_eq_left (by linarith)]; ring
-  · push_neg at hx
+  · have hx := not_le.mp hx
     rw [if_neg (not_le.mpr hx), abs_of_neg hx]
     rcases le_total (-x) t with h | h
     · rw [min_eq_left h, max_eq_right (by linarith)]; ring
@@ -164,5 +164,57 @@ theorem hier_kkt_optimal (v : E) (u : ι → ℝ) (α M b x : ℝ) (hx : 0 ≤ x
     nlinarith [mul_nonneg hc0 hc0, mul_nonneg hc0 (neg_nonneg.mpr hneg)]
   · have hb' : b = ‖v‖ - α + M * r := by rw [hkkt, max_eq_left hpos]
     nlinarith [sq_nonneg (c - b)]
+
+/-! ### matrix-level objectives (features on the rows; a group is a list of rows) -/
+
+variable {d h k : ℕ}
+
+/-- squared Frobenius distance of two matrices on the rows of group `g` -/
+noncomputable def blockDist (Z W : Fin d → Fin h → ℝ) (g : List (Fin d)) : ℝ :=
+  ∑ q : Fin g.length, ∑ j, (Z (g.get q) j - W (g.get q) j) ^ 2
+
+/-- 2-norm of the stacked rows of group `g` -/
+noncomputable def blockNorm (Z : Fin d → Fin h → ℝ) (g : List (Fin d)) : ℝ :=
+  Real.sqrt (∑ q : Fin g.length, ∑ j, Z (g.get q) j ^ 2)
+
+/-- group-lasso penalised problem restricted to group `g` -/
+noncomputable def glGroupObj (W : Fin d → Fin h → ℝ) (α : ℝ) (Z : Fin d → Fin h → ℝ) (g : List (Fin d)) : ℝ :=
+  1 / 2 * blockDist Z W g + α * blockNorm Z g
+
+/-- group-lasso penalised problem of the whole matrix: `½‖Z − W‖_F² + α Σ_g ‖Z_g‖₂` -/
+noncomputable def glMatObj (groups : List (List (Fin d))) (W : Fin d → Fin h → ℝ) (α : ℝ)
+    (Z : Fin d → Fin h → ℝ) : ℝ := (groups.map (glGroupObj W α Z)).sum
+
+/-- HIER-PROX penalised problem restricted to group `g` -/
+noncomputable def hGroupObj (Ws : Fin d → Fin k → ℝ) (W1 : Fin d → Fin h → ℝ) (α : ℝ)
+    (B : Fin d → Fin k → ℝ) (T : Fin d → Fin h → ℝ) (g : List (Fin d)) : ℝ :=
+  1 / 2 * blockDist B Ws g + 1 / 2 * blockDist T W1 g + α * blockNorm B g
+
+/-- hierarchy constraint on group `g`: every hidden weight of the group is bounded by `M` times
+    the norm of the group's skip weights -/
+def GroupFeasible (M : ℝ) (B : Fin d → Fin k → ℝ) (T : Fin d → Fin h → ℝ) (g : List (Fin d)) : Prop :=
+  ∀ (q : Fin g.length) (j : Fin h), |T (g.get q) j| ≤ M * blockNorm B g
+
+/-- HIER-PROX penalised problem of the whole pair of matrices -/
+noncomputable def hMatObj (groups : List (List (Fin d))) (Ws : Fin d → Fin k → ℝ) (W1 : Fin d → Fin h → ℝ)
+    (α : ℝ) (B : Fin d → Fin k → ℝ) (T : Fin d → Fin h → ℝ) : ℝ :=
+  (groups.map (hGroupObj Ws W1 α B T)).sum
+
+/-- 2-norm of a row given by its coordinates -/
+noncomputable def rowNorm {n : ℕ} (z : Fin n → ℝ) : ℝ := Real.sqrt (∑ j, z j ^ 2)
+
+/-- row-wise (ungrouped) group-lasso problem: `Σ_i (½ Σ_j (Z_ij − W_ij)² + α ‖Z_i‖₂)` -/
+noncomputable def glRowsObj (W : Fin d → Fin h → ℝ) (α : ℝ) (Z : Fin d → Fin h → ℝ) : ℝ :=
+  ∑ i, (1 / 2 * ∑ j, (Z i j - W i j) ^ 2 + α * rowNorm (Z i))
+
+/-- row-wise HIER-PROX problem -/
+noncomputable def hRowsObj (Ws : Fin d → Fin k → ℝ) (W1 : Fin d → Fin h → ℝ) (α : ℝ)
+    (B : Fin d → Fin k → ℝ) (T : Fin d → Fin h → ℝ) : ℝ :=
+  ∑ i, (1 / 2 * ∑ c, (B i c - Ws i c) ^ 2 + 1 / 2 * ∑ j, (T i j - W1 i j) ^ 2 + α * rowNorm (B i))
+
+/-- the property's scope for one feature (or flattened group) of the hierarchical operator: non-zero
+    skip weights, or zero skip weights together with zero hidden weights (and `α ≥ 0`; on IEEE
+    doubles `α > 0` is needed, see `Props/C05.lean`) -/
+def InScope {k h : ℕ} (v : Fin k → ℝ) (u : Fin h → ℝ) (α : ℝ) : Prop := v ≠ 0 ∨ (v = 0 ∧ u = 0 ∧ 0 ≤ α)
 
 end GemVerif.Spec.Prox
